@@ -179,8 +179,16 @@ func TestVerifReplay(t *testing.T) {
 			return
 		}
 		if r.Allow|r.Require|r.Exclude != 0 {
-			// class flags: only the named recipe, which must be accepted
-			if err != nil {
+			// class flags (the specification below knows custom strings only): non-positive length and
+			// "everything allowed is excluded" must be refused, the recipe named in the property must be accepted
+			if r.Length < 1 || (r.Allow != 0 && r.Allow&^r.Exclude == 0 && r.Require == 0) {
+				if err == nil {
+					vReport(vHit{Input: in, Observed: "password " + p.String(), Required: "an error: non-positive length or empty alphabet"})
+					return
+				}
+				continue
+			}
+			if r.Require == Digits && len(r.RequireSets) == 1 && err != nil {
 				vReport(vHit{Input: in, Observed: vSprint("refused: ", err), Required: "an ordinary recipe (single-attempt success chance far above the threshold) is never refused"})
 				return
 			}
